@@ -1297,7 +1297,7 @@ pub fn fixed_cases(tier: Tier) -> Vec<Case> {
 
 pub fn generate(rng: &mut Rng, tier: Tier, _index: u64) -> Vec<String> {
     match rng.below(13) {
-        10 | 11 => (0..2).filter_map(|_| bpmap_op(rng, tier)).collect(),
+        10 | 11 => bpmap_op(rng, tier).into_iter().collect(),
         12 => {
             if rng.chance(1, 2) {
                 deep_case(rng, tier)
